@@ -11,7 +11,7 @@ Ltac Zify.zify_post_hook ::= Z.to_euclidean_division_equations.
 
 (* bring both sides to one spelling of the wrap-around operations *)
 Ltac norm_wrap :=
-  cbv [wrap_ty wrapu wraps sgn bits i8 u8 i16 u16 i32 u32 i64 u64 u32w s32];
+  cbv [wrap_ty wrapu wraps sgn bits i8 u8 i16 u16 i32 u32 i64 u64 u32w s32 s64];
   change (2 ^ 8) with 256; change (2 ^ 16) with 65536; change (2 ^ 32) with 4294967296;
   change (2 ^ 64) with 18446744073709551616;
   change (2 ^ (8 - 1)) with 128; change (2 ^ (16 - 1)) with 32768; change (2 ^ (32 - 1)) with 2147483648;
@@ -55,7 +55,7 @@ Qed.
 Theorem gen_weekday_from_days_eq : forall tp, Gen_chrono.weekday_from_days_g tp = weekday_from_days_m tp.
 Proof.
   intros tp. unfold Gen_chrono.weekday_from_days_g, weekday_from_days_m.
-  norm_wrap. destruct (tp >=? -4) eqn:E; cbn [obind]; lockstep.
+  cbv zeta. norm_wrap. destruct (tp >=? -4) eqn:E; cbn [obind]; lockstep.
 Qed.
 
 Theorem gen_is_leap_eq : forall y, Gen_chrono.is_leap_g y = Some (is_leap_m y).
